@@ -57,7 +57,32 @@ def _c14_parts(tier):
              "per_fork": 1, "wall_s": 90 if q else 1500, "run_timeout_s": 180}]
 
 
+def _c04_parts(tier):
+    from sim.engines import c04
+    q = tier == "quick"
+    return [{"engine": "c04", "params": c04.default_params(tier), "runs": 14_000 if q else 400_000,
+             "per_fork": 1, "wall_s": 90 if q else 1500}]
+
+
+RENDER_REAL_CACHE = {
+    "real": RENDER_REAL["real"] + ["LocMemCache with TTL (variant, clock patched)", "middleware / render_dependencies"],
+    "stub": RENDER_REAL["stub"] + ["SimCache backend (variants sim, sim-ttl)", "virtual clock (cache TTL only)"],
+}
+
 SPECS = {
+    "C04": {
+        "level": "exploration",
+        "parts": _c04_parts,
+        "rule": "case = element-mode program with js/css/Media on its classes (incl. inherited Media, non-ASCII class names) x "
+                "1-3 renders through drawn entry paths (render_dependencies str/bytes/SafeString, middleware, "
+                "Component.render; document/fragment) x media-cache faults between renders; distinct = program skeleton x "
+                "plan; non-trivial = at least one rendered class has js, css or Media files",
+        "real_vs_stub": RENDER_REAL_CACHE,
+        "sim_time_stat": "sim_time_s",
+        "assumptions": ["tags are delivered only where C08 says they are inserted (placeholder, </head>, </body>); pages without "
+                        "any insertion point expect nothing",
+                        "cache loss is injected between renders only (loss during a render is outside the statement)"],
+    },
     "C14": {
         "level": "exploration",
         "parts": _c14_parts,
@@ -137,6 +162,14 @@ MANIFEST_META = {
         "level_note": "Trusted: the reference renderer (sim/model/ref.py) as the meaning of the statement; the generated "
                       "language (Appendix A) as the domain; step budget as hang verdict.",
     },
+    "C04": {
+        "engine": "render-sim", "design_ref": "DESIGN.md 4/C04",
+        "technique": _DST.format(what="asset-carrying programs x render histories x entry paths x media-cache backends",
+                                 faults="media-cache clear / evict / TTL expiry (virtual clock) and GC between renders"),
+        "level_text": "Seeded exploration: scripts, styles, Media tags and the loader manifest of the final HTML must equal the "
+                      "multiset/order predicted from the model's instance pre-order; markers must not survive; any cache state.",
+        "level_note": "Trusted: model instance pre-order = first appearance; regex scanner for script/style/link tags of generated pages.",
+    },
     "C05": {
         "engine": "render-sim", "design_ref": "DESIGN.md 4/C05",
         "technique": _DST.format(what="histories of provider/consumer page renders in one process",
@@ -184,7 +217,6 @@ NOT_APPLICABLE = {
     "C02": "pure function of (tag text, context): the parser/resolver reads no shared state, id, cache, clock or file; there is "
            "no schedule, history or fault for a simulator to sample (input-space property; generative testing territory)",
     "C03": "not claimed yet (build in progress)",
-    "C04": "not claimed yet (build in progress)",
     "C07": "not claimed yet (build in progress)",
     "C08": "render_dependencies is a pure bytes->bytes function given the set of component classes; the middleware's async "
            "wrapper awaits once and calls the same synchronous function; no history, schedule or fault dimension",
